@@ -7,7 +7,6 @@ import (
 	"fmt"
 	"go/token"
 	"go/types"
-	"os"
 
 	"golang.org/x/tools/go/ssa"
 )
